@@ -9,6 +9,7 @@ import (
 	"os/exec"
 	"sort"
 	"strconv"
+	"strings"
 	"time"
 
 	"github.com/gorilla/websocket"
@@ -36,6 +37,7 @@ type BusyResult struct {
 	Messages   int             `json:"messages"`
 	Obs        []BusyObs       `json:"obs"`
 	Violations []BusyViolation `json:"violations"`
+	Bodies     [][]byte        `json:"bodies"` // some of the /status bodies, for the model's encoder
 	Note       string          `json:"note"`
 }
 
@@ -99,7 +101,10 @@ func busyChild(total int, seed int64) {
 		sc, cr, cw := scopesOf(scopes)
 		return Ident{Topic: []byte("busy"), Scopes: sc, CanRead: cr, CanWrite: cw, ExpiresAt: expText(exp), Exp: exp, UserAgent: []byte(ua), Addr: []byte{}}
 	}
-	sender, receiver := mk("busy-sender", "write"), mk("busy-receiver", "read")
+	// odd metadata here too: these bodies also go to the model's encoder of /status
+	sender := mk("busy-sender "+string(headerSafe(oddString(r))), "write", string(headerSafe(oddString(r))))
+	receiver := mk("busy-receiver "+string(headerSafe(oddString(r))), "read")
+	sender.Addr = headerSafe(oddString(r))
 	connected := time.Now()
 	sc, err := w.connect(sender, "busy")
 	if err != nil {
@@ -132,12 +137,24 @@ func busyChild(total int, seed int64) {
 			bad("wrong-traffic-figures", "busy:rate-not-positive", fmt.Sprintf("%s: after %d messages %s is reported with fps %v", src, n, who, fps))
 		}
 	}
+	stages := busyStages(r, total)
+	// frames are slow (one per reporting interval): they are taken at a few of the stages only
+	frameAt := map[int]bool{1: true, total: true}
+	for _, x := range []int{256, 1000, 1500, 3000, 4096, 65536, 66000} {
+		if x <= total {
+			frameAt[x] = true
+		}
+	}
+	frameAt[stages[r.Intn(len(stages))]] = true
 	wantExp := string(expText(exp))
 	takeREST := func(n int) {
-		listing, _, st := w.restListing()
+		listing, body, st := w.restListing()
 		if st != 200 {
 			bad("status-endpoint-fails", "busy:status-endpoint-fails", fmt.Sprintf("GET /status answered %d after %d messages", st, n))
 			return
+		}
+		if frameAt[n] && len(out.Bodies) < 8 {
+			out.Bodies = append(out.Bodies, body)
 		}
 		o := BusyObs{N: n, Source: "status-endpoint"}
 		seen := 0
@@ -161,13 +178,13 @@ func busyChild(total int, seed int64) {
 			if rep.Stats == nil {
 				continue
 			}
-			switch rep.UserAgent {
-			case "busy-sender":
+			switch {
+			case strings.HasPrefix(rep.UserAgent, "busy-sender"):
 				nv, l, sz, fp := d(rep.Stats.Tx)
 				o.SenderNever = nv
 				judge(n, "GET /status", "the sender's tx", nv, l, sz, fp)
 				seen++
-			case "busy-receiver":
+			case strings.HasPrefix(rep.UserAgent, "busy-receiver"):
 				nv, l, sz, fp := d(rep.Stats.Rx)
 				o.ReceiverNever = nv
 				judge(n, "GET /status", "the receiver's rx", nv, l, sz, fp)
@@ -213,11 +230,11 @@ func busyChild(total int, seed int64) {
 				judge(n, "stats topic", who, s.Never, s.Last, s.Size, s.FPS)
 				return s.Never
 			}
-			switch rep.UserAgent {
-			case "busy-sender":
+			switch {
+			case strings.HasPrefix(rep.UserAgent, "busy-sender"):
 				o.SenderNever = use(rep.Stats.Tx, "the sender's tx")
 				seen++
-			case "busy-receiver":
+			case strings.HasPrefix(rep.UserAgent, "busy-receiver"):
 				o.ReceiverNever = use(rep.Stats.Rx, "the receiver's rx")
 				seen++
 			}
@@ -228,15 +245,6 @@ func busyChild(total int, seed int64) {
 		}
 		out.Obs = append(out.Obs, o)
 	}
-	stages := busyStages(r, total)
-	// frames are slow (one per reporting interval): they are taken at a few of the stages only
-	frameAt := map[int]bool{1: true, total: true}
-	for _, x := range []int{256, 1000, 1500, 3000, 4096, 65536, 66000} {
-		if x <= total {
-			frameAt[x] = true
-		}
-	}
-	frameAt[stages[r.Intn(len(stages))]] = true
 	si := 0
 	buf := make([]byte, 256)
 	for n := 1; n <= total; n++ {
@@ -308,6 +316,11 @@ func runBusy(res *lib.Result, total int, seed int64) []Case {
 		res.Violate(lib.Violation{Clause: v.Clause, Case: -1, Replay: replay, Key: v.Key, Detail: v.Detail})
 	}
 	var cases []Case
+	for _, b := range r.Bodies {
+		if c, ok := restCase(b, "busy"); ok {
+			cases = append(cases, c)
+		}
+	}
 	for _, o := range r.Obs {
 		cases = append(cases, Case{Kind: "traffic", D: int64(o.N), Source: o.Source, Never: []bool{o.SenderNever, o.ReceiverNever}})
 	}
